@@ -164,6 +164,20 @@ func (x *exec) ev(e Expr, env *Env, hint types.Type) *Val {
 		fail("spec: cannot index %s (type %s)", ExprString(n.X), xv.Typ)
 	case *ESlice:
 		xv := x.ev(n.X, env, nil)
+		if b, ok := xv.Typ.Underlying().(*types.Basic); ok && b.Info()&types.IsString != 0 {
+			st := x.term(xv)
+			lo, hi := x.c.ILit(0), App("str-len", st)
+			if n.Lo != nil {
+				v := x.ev(n.Lo, env, types.Typ[types.Int])
+				lo = x.c.Convert(x.term(v), v.Typ, types.Typ[types.Int])
+			}
+			if n.Hi != nil {
+				v := x.ev(n.Hi, env, types.Typ[types.Int])
+				hi = x.c.Convert(x.term(v), v.Typ, types.Typ[types.Int])
+			}
+			x.c.Fun("str-sub", []string{"Str", x.c.I(), x.c.I()}, "Str")
+			return x.mkVal(App("str-sub", st, lo, hi), xv.Typ)
+		}
 		if !isSliceType(xv.Typ) {
 			fail("spec: slice expression on %s", xv.Typ)
 		}
@@ -677,6 +691,17 @@ func (x *exec) evCall(n *ECall, env *Env, hint types.Type) *Val {
 		// value receiver method called through a pointer: pass the value
 		if sig, ok := m.Type().(*types.Signature); ok && sig.Recv() != nil {
 			_, wantPtr := sig.Recv().Type().(*types.Pointer)
+			if _, havePtr := recv.Typ.Underlying().(*types.Pointer); wantPtr && !havePtr {
+				// pointer-receiver method on an addressable struct field: pass its address, as Go does
+				if _, isSel := sel.X.(*ESel); isSel {
+					old := env.st
+					l, t := x.evalLoc(sel.X, env)
+					env.st = old
+					if l != nil && l.K == LObj {
+						recv = &Val{Typ: types.NewPointer(t), L: l, T: l.Ref}
+					}
+				}
+			}
 			if p, havePtr := recv.Typ.Underlying().(*types.Pointer); havePtr && !wantPtr && recv.L != nil {
 				if _, isI := sig.Recv().Type().Underlying().(*types.Interface); !isI {
 					recv = x.load(env.st, recv.L, p.Elem())
